@@ -220,6 +220,7 @@ func txnVariants(url string, full, withResp bool) []Txn {
 		out := []Txn{{URL: url, Method: "GET"}}
 		if withResp {
 			out = append(out, Txn{Resp: true, URL: url, Method: "GET", Status: 200})
+			out = append(out, Txn{Resp: true, NoResp: true, URL: url, Method: "GET"})
 		}
 		return out
 	}
@@ -239,6 +240,9 @@ func txnVariants(url string, full, withResp bool) []Txn {
 		Txn{Resp: true, URL: url, Method: "POST", Status: 201},
 		Txn{Resp: true, URL: url, Method: "GET", Status: 500},
 		Txn{Resp: true, URL: url, Method: "HEAD", Status: 201},
+		// the request handled as a response after an early response: no response object
+		Txn{Resp: true, NoResp: true, URL: url, Method: "GET"},
+		Txn{Resp: true, NoResp: true, URL: url, Method: "POST", Headers: []KV{{"x-b", "1"}}, Query: []KV{{"q", "1"}}},
 	)
 	return out
 }
